@@ -69,6 +69,7 @@ pub const STAGES: &[&str] = &[
     "cff2 charstring: draw",         // 26
     "capacity family: cff hinted draw", // 27
     "colour gradient family: paint", // 28
+    "colour index family: paint",    // 29
 ];
 
 /// Called by drivers immediately before a call into the code under test.
